@@ -34,19 +34,19 @@ type chain struct {
 	Group string `json:"group"` // consistent | conflicting
 
 	// model
-	Annotated   bool     `json:"annotated"`
-	Code        int      `json:"ann_code,omitempty"`
-	Enh         [3]int   `json:"ann_enh,omitempty"`
-	Msg         string   `json:"ann_msg,omitempty"`
-	HasMarker   bool     `json:"has_marker"`
-	Marker      bool     `json:"marker_temporary,omitempty"`
-	HasDeadline bool     `json:"has_deadline,omitempty"`
+	Annotated   bool   `json:"annotated"`
+	Code        int    `json:"ann_code,omitempty"`
+	Enh         [3]int `json:"ann_enh,omitempty"`
+	Msg         string `json:"ann_msg,omitempty"`
+	HasMarker   bool   `json:"has_marker"`
+	Marker      bool   `json:"marker_temporary,omitempty"`
+	HasDeadline bool   `json:"has_deadline,omitempty"`
 	// BareGoSMTP: the whole error is a plain go-smtp *SMTPError (the deprecated
 	// but supported annotation type both reply conversions special-case).
-	BareGoSMTP bool `json:"bare_go_smtp,omitempty"`
-	MultiLine  bool `json:"multi_line,omitempty"`
-	MsgKind     string   `json:"msg_kind,omitempty"`
-	Tokens      []string `json:"-"`
+	BareGoSMTP bool     `json:"bare_go_smtp,omitempty"`
+	MultiLine  bool     `json:"multi_line,omitempty"`
+	MsgKind    string   `json:"msg_kind,omitempty"`
+	Tokens     []string `json:"-"`
 }
 
 type codePair struct {
